@@ -273,37 +273,13 @@ func (h c16Handler) Handle(_ context.Context, raw any) error {
 	return nil
 }
 
-// c16Scratch is where the log files of this worker live. Every bbolt transaction ends with
-// fdatasync, which on the disk behind VERIF_TMP costs milliseconds and dominates the search;
-// durability against power loss is not what C16 is about, so a per-worker directory on the
-// tmpfs /dev/shm is used when there is one (VERIF_C16_DIR overrides, VERIF_TMP is the fallback).
-var c16Scratch string
-
+// c16Dir is the per-worker scratch directory (the orchestrator puts VERIF_TMP on tmpfs when it
+// can: every bbolt transaction ends with fdatasync, which on a disk dominates the search).
 func c16Dir() string {
-	if c16Scratch != "" {
-		return c16Scratch
-	}
-	if d := os.Getenv("VERIF_C16_DIR"); d != "" {
-		c16Scratch = d
+	if d := os.Getenv("VERIF_TMP"); d != "" {
 		return d
 	}
-	if d, err := os.MkdirTemp("/dev/shm", "verif-c16-"); err == nil {
-		c16Scratch = d
-		return d
-	}
-	d := os.Getenv("VERIF_TMP")
-	if d == "" {
-		d = os.TempDir()
-	}
-	c16Scratch = d
-	return d
-}
-
-func c16Cleanup() {
-	if strings.HasPrefix(c16Scratch, "/dev/shm/verif-c16-") {
-		os.RemoveAll(c16Scratch)
-	}
-	c16Scratch = ""
+	return os.TempDir()
 }
 
 // c16ReadFile observes a log file without disturbing the handle that has it open: the bytes are
@@ -688,7 +664,6 @@ type c16Node struct {
 }
 
 func c16Check(c *vcore.Ctx) {
-	defer c16Cleanup()
 	c.SetRule("seq: breadth-first search over histories of Log(type A|B, item x|y), Commit(any handle invoked fewer than twice, also stale ones), Reopen(handlers AB | A only), Recover(script giving every pending event of a registered type an outcome in {ok, handler error, not needed, check error, decode error}) on the real Hydro+Lithium; each transition = replay of the shortest history on a fresh bbolt file + one real operation, file contents observed after it and compared with the parent's observed contents; de-duplicated per worker on (file contents as (id,type,item,serial), highest id issued, handles (serial, stale, invocations), registered handlers); " +
 		"conc: all interleavings at kv.KV granularity of 2 loggers (Log; Commit or not) and 1 Recover with handler outcomes {ok, handler error}^2; " +
 		"non-trivial = a reached state whose log holds an event or that has an outstanding handle (distinct by canonical state), resp. an interleaving in which the recovery scan saw an event (distinct by configuration and schedule)")
